@@ -176,6 +176,36 @@ Proof.
   cbn [app]. rewrite H. reflexivity.
 Qed.
 
+(* a trailing separator: filepath.Clean drops it *)
+Lemma split_render_slash : forall c p,
+  clean_path (c :: p) ->
+  split_slash [] (c ++ render p ++ [c_slash]) = (c :: p) ++ [[]].
+Proof.
+  intros c p. revert c. induction p as [|d p IH]; intros c H.
+  - cbn [render flat_map app].
+    unfold clean_path in H. cbn [forallb] in H. apply andb_prop in H. destruct H as [Hc _].
+    rewrite split_slash_noslash by (apply clean_comp_no_slash; exact Hc).
+    rewrite app_nil_r, rev_involutive. reflexivity.
+  - unfold clean_path in H. cbn [forallb] in H. apply andb_prop in H. destruct H as [Hc Hr].
+    change (render (d :: p)) with (c_slash :: d ++ render p).
+    change ((c_slash :: d ++ render p) ++ [c_slash]) with (c_slash :: (d ++ render p) ++ [c_slash]).
+    rewrite <- app_assoc.
+    rewrite split_slash_noslash by (apply clean_comp_no_slash; exact Hc).
+    rewrite app_nil_r, rev_involutive. cbn [app]. f_equal. apply IH. exact Hr.
+Qed.
+
+Lemma parse_render_slash : forall p, p <> [] -> clean_path p ->
+  parse_abs (render p ++ [c_slash]) = Some p.
+Proof.
+  intros [|c p] Hne H; [contradiction|].
+  change (render (c :: p)) with (c_slash :: c ++ render p).
+  change ((c_slash :: c ++ render p) ++ [c_slash]) with (c_slash :: (c ++ render p) ++ [c_slash]).
+  rewrite <- app_assoc.
+  unfold parse_abs, clean_join. rewrite beq_refl. rewrite split_render_slash by exact H.
+  rewrite fold_left_app. unfold clean_path in H. rewrite (fold_clean_step_clean (c :: p) []) by exact H.
+  cbn [app fold_left]. unfold clean_step. cbn [bytes_eqb orb]. rewrite H. reflexivity.
+Qed.
+
 Lemma render_nonempty : forall p, p <> [] -> exists b r, render p = b :: r.
 Proof. intros [|c p] H; [contradiction|]. exists c_slash, (c ++ render p). reflexivity. Qed.
 
@@ -456,6 +486,39 @@ Section Leaf.
     move_file ps outrel fname (JStr []) s = (JNull, s).
   Proof. reflexivity. Qed.
 End Leaf.
+
+(* a directory named with a trailing separator is treated exactly like the
+   directory: same effect on the file system, and the same rewritten value
+   unless the value is left as it was *)
+Section LeafSlash.
+  Variable ps : path.
+
+  Ltac crush_pair :=
+    repeat first
+      [ progress cbn [fst snd]
+      | match goal with
+        | |- context [let (_, _) := ?x in _] => destruct x
+        | |- context [if ?b then _ else _] => destruct b
+        | |- context [match ?x with _ => _ end] => destruct x
+        end ];
+    try (split; [reflexivity | first [left; reflexivity | right; split; reflexivity]]).
+
+  Lemma move_file_trailing_slash_lemma : forall outrel fname fp s,
+    fp <> [] -> clean_path fp ->
+    let v0 := JStr (render fp) in
+    let v1 := JStr (render fp ++ [c_slash]) in
+    snd (move_file ps outrel fname v1 s) = snd (move_file ps outrel fname v0 s) /\
+    (fst (move_file ps outrel fname v1 s) = fst (move_file ps outrel fname v0 s) \/
+     fst (move_file ps outrel fname v1 s) = v1 /\ fst (move_file ps outrel fname v0 s) = v0).
+  Proof.
+    intros outrel fname fp s Hne Hc v0 v1. subst v0 v1. unfold move_file.
+    destruct (render_nonempty fp Hne) as (b & r & Er).
+    rewrite Er. cbn [app]. change (b :: r ++ [c_slash]) with ((b :: r) ++ [c_slash]).
+    rewrite <- Er. rewrite (parse_render fp Hne Hc), (parse_render_slash fp Hne Hc).
+    unfold copy_symlink.
+    crush_pair.
+  Qed.
+End LeafSlash.
 
 (* ------------------------------------------------------------ names *)
 
